@@ -46,6 +46,13 @@ TWINS = {"a/pet.json": {"title": "PetA", "type": "object", "properties": {"o": {
 CASES = {"Pet.json": {"title": "Pet", "type": "object", "properties": {"o": {"$ref": "pet.json#/definitions/Owner"}}, "definitions": {"Tag": {"type": "object", "properties": {"t": {"type": "string"}}}}},
          "pet.json": {"title": "Pets", "type": "object", "properties": {"t": {"$ref": "Pet.json#/definitions/Tag"}}, "definitions": {"Owner": {"type": "object", "properties": {"n": {"type": "string"}}}}},
          "user.json": {"title": "User", "type": "object", "properties": {"p": {"$ref": "Pet.json"}, "q": {"$ref": "pet.json"}}}}
+# a member named like the type it has (the generator aliases the import) and a document that uses the same types plainly
+DOCS["shadow"] = {"title": "S", "type": "object", "properties": {"date": {"type": "string", "format": "date"}, "time": {"type": "string", "format": "time"},
+                                                                  "UUID": {"type": "string", "format": "uuid"}, "Decimal": {"type": "number", "format": "decimal"},
+                                                                  "datetime": {"type": "string", "format": "date-time"}}}
+DOCS["dates"] = {"title": "D", "type": "object", "properties": {"born": {"type": "string", "format": "date"}, "at": {"type": "string", "format": "time"},
+                                                                 "id": {"type": "string", "format": "uuid"}, "price": {"type": "number", "format": "decimal"},
+                                                                 "seen": {"type": "array", "items": {"type": "string", "format": "date-time"}}}}
 OPTSETS = [
     {}, {"snake_case_field": True}, {"remove_special_field_name_prefix": True}, {"special_field_name_prefix": "zz"}, {"use_union_operator": True, "use_standard_collections": True},
     {"capitalise_enum_members": True}, {"field_constraints": True, "use_annotated": True}, {"reuse_model": True, "collapse_root_models": True}, {"use_title_as_name": True},
@@ -244,6 +251,9 @@ def falsify(ctx):
         target = {"doc": DOCS[rng.choice(list(DOCS))], "kind": rng.choice(KINDS), "opts": rng.choice(OPTSETS)}
         hist = [{"doc": DOCS[rng.choice(list(DOCS))], "kind": rng.choice(KINDS), "opts": rng.choice(OPTSETS)} for _ in range(rng.choice([1, 2, 4]))]
         hist_cases.append((target, hist))
+    for kind in KINDS:   # directed: the history holds the shadowing document, the target uses the same types
+        hist_cases.append(({"doc": DOCS["dates"], "kind": kind, "opts": {}}, [{"doc": DOCS["shadow"], "kind": kind, "opts": {}}]))
+        hist_cases.append(({"doc": DOCS["shadow"], "kind": kind, "opts": {}}, [{"doc": DOCS["dates"], "kind": kind, "opts": {}}, {"doc": DOCS["shadow"], "kind": "pydantic_v2.BaseModel", "opts": {}}]))
     prefetch([({"target": t}, 0) for t, h in hist_cases] + [({"target": t, "history": h}, 0) for t, h in hist_cases])
     for job in jobs:
         outs = []
